@@ -341,9 +341,69 @@ func (e *CEnv) local(name string) (Value, bool) {
 	if v, ok := e.local1(name); ok {
 		return v, true
 	}
+	// a counter of THIS loop (a loop-carried variable when the contracts were recorded) that is gone, in a loop that is a
+	// range loop now: the counter is the hidden range index plus one - decided before any renaming is tried
+	if v, ok := e.counterOfRange(name, true); ok {
+		return v, true
+	}
 	// the variable may have been renamed since the contract was written (see locals.go)
 	if nn, ok := e.x.W.renames(e.fn)[name]; ok {
 		return e.local1(nn)
+	}
+	// the loop may have changed its form since the invariant was written: `for i := 0; i < n; i++` and `for i := range s`
+	// count the same iterations, the counter at the loop head being the hidden range index plus one. (As with renaming,
+	// this only decides which variable an invariant speaks about; the invariant is still checked.)
+	if e.at != nil {
+		var rangeIdx, only *ssa.Phi
+		ints := 0
+		for _, in := range e.at.Instrs {
+			p, ok := in.(*ssa.Phi)
+			if !ok {
+				break
+			}
+			if b, ok := p.Type().Underlying().(*types.Basic); ok && b.Kind() == types.Int {
+				if p.Comment == "rangeindex" {
+					rangeIdx = p
+				} else {
+					ints++
+					only = p
+				}
+			}
+		}
+		if name == "rangeindex" && rangeIdx == nil && ints == 1 {
+			if v, ok := e.fr.Regs[only].(*Term); ok {
+				return Sub(v, IntLit(1)), true
+			}
+		}
+	}
+	if v, ok := e.counterOfRange(name, false); ok {
+		return v, true
+	}
+	return nil, false
+}
+
+// counterOfRange: at the head of a loop that has a hidden range index, a vanished int variable read as that index plus one.
+// strict: only if the name is recorded as a loop-carried variable of this very loop.
+func (e *CEnv) counterOfRange(name string, strict bool) (Value, bool) {
+	if e.at == nil || e.fn == nil || name == "rangeindex" || !e.x.W.vanishedInt(e.fn, name) {
+		return nil, false
+	}
+	if strict {
+		ord, ok := e.x.W.Loops(e.fn).Ord[e.at]
+		if !ok || !e.x.W.wasLoopVar(e.fn, ord, name) {
+			return nil, false
+		}
+	}
+	for _, in := range e.at.Instrs {
+		p, ok := in.(*ssa.Phi)
+		if !ok {
+			break
+		}
+		if p.Comment == "rangeindex" {
+			if v, ok := e.fr.Regs[p].(*Term); ok {
+				return Add(v, IntLit(1)), true
+			}
+		}
 	}
 	return nil, false
 }
